@@ -10,6 +10,7 @@ import (
 	"github.com/aperturerobotics/bifrost/link"
 	"github.com/aperturerobotics/bifrost/peer"
 	"github.com/aperturerobotics/bifrost/transport"
+	"github.com/pkg/errors"
 	"github.com/quic-go/quic-go"
 	"github.com/sirupsen/logrus"
 )
@@ -53,7 +54,9 @@ type Transport struct {
 
 // DialFunc is a function to dial a peer with a string address.
 // The function should parse the addr to a net.Addr.
-type DialFunc func(ctx context.Context, addr string) (*quic.Conn, net.Addr, error)
+// peerID is the expected remote peer ID: the handshake must be refused if a
+// different peer answers. If empty, any remote peer is accepted.
+type DialFunc func(ctx context.Context, peerID peer.ID, addr string) (*quic.Conn, net.Addr, error)
 
 // NewTransport constructs a new quic-backed based transport.
 func NewTransport(
@@ -163,6 +166,16 @@ func (t *Transport) DialPeer(ctx context.Context, peerID peer.ID, as string) (li
 	lnk, err := dl.result.Await(ctx)
 	if err != nil {
 		return nil, false, err
+	}
+
+	// the dialer may have been started for a different (or any) peer id.
+	if peerID != "" && lnk != nil && lnk.GetRemotePeer() != peerID {
+		return nil, false, errors.Errorf(
+			"dialed %s: remote peer id %s != requested %s",
+			as,
+			lnk.GetRemotePeer().String(),
+			peerID.String(),
+		)
 	}
 
 	return lnk, false, err
